@@ -102,6 +102,19 @@ def lean_stage(prop_id, tier, mod):
     out["axioms_used"] = a.get("axioms_used", [])
     if a["failed"]:
         out["log"] += a["log"]
+    # EXTRA_PROPS: further Props modules of this property (e.g. theorems that tie a freshly translated Generated file to
+    # the model).  They are built and audited on their own, so that a tie theorem that no longer proves shows up as exactly
+    # that obligation undischarged and does not make every other theorem of the property "not elaborated".
+    for extra in getattr(mod, "EXTRA_PROPS", []):
+        rc_x, log_x, _ = leanproj.build([extra])
+        ax = leanproj.audit(prop_id, module=extra)
+        out["obligations"] += ax["obligations"]
+        out["discharged"] += ax["discharged"]
+        out["failed"].update({k: v for k, v in ax["failed"].items() if k != "<none>"})
+        out["axioms_used"] = sorted(set(out.get("axioms_used", [])) | set(ax.get("axioms_used", [])))
+        if rc_x != 0 or ax["failed"]:
+            out["log"] += log_x[-1500:] + ax["log"][-1500:]
+        targets = targets + [extra]
     out["forbidden"] = leanproj.grep_forbidden(targets)
     if out["forbidden"]:
         out["failed"]["<forbidden-tokens>"] = "; ".join(out["forbidden"][:5])
